@@ -2,10 +2,11 @@ import Proofs.DdsRoundtrip
 namespace Pydap.Dds
 open Pydap
 
-/-! ### fixpoint: printing the normal form -/
+/-! ### fixpoint: printing the normal form (every tree, no guard)
 
-/-- a base variable below `sq` sequences declares nothing but its columns -/
-def ColsB (b : BaseV) (sq : Nat) : Prop := sq = 0 ∨ b.shape.length ≤ sq
+`normBase` yields a variable without data (`nodata = true`) whose shape is the declared shape
+(`effShape b sq`); the printer does not strip record axes from such a variable, so it prints the same
+declaration again. -/
 
 theorem lookup_nil_none : lookup Gen.NUMPY_TO_DAP2_TYPEMAP [] = none := by decide
 
@@ -14,42 +15,45 @@ theorem zip_map_fst_snd {α β} (z : List (α × β)) : (z.map (·.1)).zip (z.ma
   | nil => rfl
   | cons p ps ih => simp [ih]
 
-theorem shapeText_norm (b : BaseV) (sq : Nat) (h : ColsB b sq) :
-    shapeText (normBase b sq) sq = shapeText b sq := by
-  rcases h with h | h
-  · subst h
-    unfold normBase shapeText
-    simp only [List.drop_zero]
-    by_cases h1 : b.dims ≠ []
-    · rw [if_pos h1, if_pos h1]
-      simp only
-      generalize b.dims.zip b.shape = z
-      cases z with
-      | nil => simp
-      | cons p ps =>
-        rw [if_pos (by simp)]
-        rw [zip_map_fst_snd]
-    · rw [if_neg h1, if_neg h1]
-      by_cases h2 : b.shape.length = 1
-      · rw [if_pos h2, if_pos h2]
-        simp only
-        match hs : b.shape, h2 with
-        | [n], _ => simp
-      · rw [if_neg h2, if_neg h2]
-        simp only [ne_eq, not_true_eq_false, if_false, h2]
-  · have hd : b.shape.drop sq = [] := List.drop_eq_nil_of_le h
-    unfold normBase shapeText
-    simp only [hd, List.zip_nil_right, List.map_nil, List.length_nil, List.drop_nil, List.flatMap_nil]
-    by_cases h1 : b.dims ≠ []
-    · rw [if_pos h1, if_pos h1]; simp
-    · rw [if_neg h1, if_neg h1]; simp
+theorem normBase_nodata (b : BaseV) (sq : Nat) : (normBase b sq).nodata = true := by
+  rw [normBase_entries]
 
-theorem printBase_norm (b : BaseV) (level sq : Nat) (h : ColsB b sq) :
+theorem effShape_nodata (b : BaseV) (sq : Nat) (h : b.nodata = true) : effShape b sq = b.shape := by
+  simp [effShape, h]
+
+theorem effShape_zero (b : BaseV) : effShape b 0 = b.shape := by
+  simp [effShape]
+
+theorem shapeText_norm (b : BaseV) (sq : Nat) : shapeText (normBase b sq) sq = shapeText b sq := by
+  unfold shapeText
+  rw [effShape_nodata _ sq (normBase_nodata b sq)]
+  unfold normBase
+  simp only
+  generalize effShape b sq = sh
+  by_cases h1 : b.dims ≠ []
+  · rw [if_pos h1, if_pos h1]
+    simp only
+    generalize b.dims.zip sh = z
+    cases z with
+    | nil => simp
+    | cons p ps =>
+      rw [if_pos (by simp)]
+      rw [zip_map_fst_snd]
+  · rw [if_neg h1, if_neg h1]
+    by_cases h2 : sh.length = 1
+    · rw [if_pos h2, if_pos h2]
+      simp only
+      match sh, h2 with
+      | [n], _ => simp
+    · rw [if_neg h2, if_neg h2]
+      simp only [ne_eq, not_true_eq_false, if_false]
+
+theorem printBase_norm (b : BaseV) (level sq : Nat) :
     printBase (normBase b sq) level sq = printBase b level sq := by
   have hn : (normBase b sq).name = b.name := by rw [normBase_entries]
   have hd : (normBase b sq).dt = normTy b.dt := by rw [normBase_entries]
   unfold printBase
-  rw [shapeText_norm b sq h, hn, hd]
+  rw [shapeText_norm b sq, hn, hd]
   cases hl : lookup Gen.NUMPY_TO_DAP2_TYPEMAP (dtypeChar b.dt) with
   | none =>
     have : normTy b.dt = [] := by simp [normTy, hl]
@@ -61,76 +65,58 @@ theorem printBase_norm (b : BaseV) (level sq : Nat) (h : ColsB b sq) :
     have : normTy b.dt = dt := by simp [normTy, hl, tf.parser]
     rw [this, tf.back]
 
-theorem printBases_norm (bs : List BaseV) (level sq : Nat) (h : ∀ b ∈ bs, ColsB b sq) :
+theorem printBases_norm (bs : List BaseV) (level sq : Nat) :
     printBases (bs.map fun b => normBase b sq) level sq = printBases bs level sq := by
   induction bs with
   | nil => rfl
   | cons b bs ih =>
     simp only [List.map_cons, printBases]
-    rw [printBase_norm b level sq (h b (by simp)), ih (fun x hx => h x (by simp [hx]))]
+    rw [printBase_norm b level sq, ih]
 
 mutual
-def ColsT : Tmpl → Nat → Prop
-  | .base b, sq => ColsB b sq
-  | .struct _ kids, sq => ColsL kids sq
-  | .seq _ kids, sq => ColsL kids (sq + 1)
-  | .grid _ kids, sq => ∀ b ∈ kids, ColsB b sq
-def ColsL : List Tmpl → Nat → Prop
-  | [], _ => True
-  | t :: ts, sq => ColsT t sq ∧ ColsL ts sq
-end
-
-mutual
-theorem printT_norm : (t : Tmpl) → (level sq : Nat) → ColsT t sq → printT (normT t sq) level sq = printT t level sq
-  | .base b, level, sq, h => by
-    simp only [ColsT] at h
-    simp only [normT, printT, printBase_norm b level sq h]
-  | .struct n kids, level, sq, h => by
-    simp only [ColsT] at h
-    simp only [normT, printT, printL_norm kids (level + 1) sq h]
-  | .seq n kids, level, sq, h => by
-    simp only [ColsT] at h
-    simp only [normT, printT, printL_norm kids (level + 1) (sq + 1) h]
-  | .grid n kids, level, sq, h => by
-    simp only [ColsT] at h
+theorem printT_norm : (t : Tmpl) → (level sq : Nat) → printT (normT t sq) level sq = printT t level sq
+  | .base b, level, sq => by
+    simp only [normT, printT, printBase_norm b level sq]
+  | .struct n kids, level, sq => by
+    simp only [normT, printT, printL_norm kids (level + 1) sq]
+  | .seq n kids, level, sq => by
+    simp only [normT, printT, printL_norm kids (level + 1) (sq + 1)]
+  | .grid n kids, level, sq => by
     simp only [normT, printT]
     unfold printGrid
     cases kids with
     | nil => rfl
     | cons a maps =>
       simp only [List.map_cons]
-      rw [printBase_norm a (level + 2) sq (h a (by simp)),
-        printBases_norm maps (level + 2) sq (fun x hx => h x (by simp [hx]))]
-theorem printL_norm : (ts : List Tmpl) → (level sq : Nat) → ColsL ts sq → printL (normL ts sq) level sq = printL ts level sq
-  | [], level, sq, h => by simp [normL]
-  | t :: ts, level, sq, h => by
-    simp only [ColsL] at h
-    simp only [normL, printL, printT_norm t level sq h.1, printL_norm ts level sq h.2]
+      rw [printBase_norm a (level + 2) sq, printBases_norm maps (level + 2) sq]
+theorem printL_norm : (ts : List Tmpl) → (level sq : Nat) → printL (normL ts sq) level sq = printL ts level sq
+  | [], level, sq => by simp [normL]
+  | t :: ts, level, sq => by
+    simp only [normL, printL, printT_norm t level sq, printL_norm ts level sq]
 end
 
-theorem printDs_norm (d : Dataset) (h : ColsL d.kids 0) : printDs (normDs d) = printDs d := by
-  simp only [printDs, normDs, printL_norm d.kids 1 0 h]
+theorem printDs_norm (d : Dataset) : printDs (normDs d) = printDs d := by
+  simp only [printDs, normDs, printL_norm d.kids 1 0]
 
-/-- array member of a sequence: the witness of the open finding -/
+/-- array member of a sequence that holds data (5 records of 3 values): the witness of the former finding
+    `C07.sequence_array_member.fixpoint` (fixed in b7ad9b3) -/
 def seqArrayWitness : Dataset :=
-  ⟨['d'], [.seq ['Q'] [.base ⟨['i'], ['h'], [5, 3], []⟩]]⟩
+  ⟨['d'], [.seq ['Q'] [.base ⟨['i'], ['h'], [5, 3], [], false⟩]]⟩
 
 theorem intText_3 : intText 3 = ['3'] := by
   simp [intText, natDigits, digitChar]
 
-theorem seqArrayWitness_not_fixpoint : printDs (normDs seqArrayWitness) ≠ printDs seqArrayWitness := by
+theorem seqArrayWitness_prints :
+    printDs seqArrayWitness = .ok "Dataset {\n    Sequence {\n        Int16 i[i = 3];\n    } Q;\n} d;\n".toList := by
   have l1 : lookup Gen.NUMPY_TO_DAP2_TYPEMAP (dtypeChar ['h']) = some "Int16".toList := by decide
+  simp [seqArrayWitness, printDs, printL, printT, printBase, shapeText, effShape, dimText, intText_3, closeText,
+    indent, l1]
+
+/-- what the witness parses to: the declared shape `(3,)`, no data -/
+theorem seqArrayWitness_norm :
+    normDs seqArrayWitness = ⟨['d'], [.seq ['Q'] [.base ⟨['i'], ['>', 'h'], [3], [['i']], true⟩]]⟩ := by
   have l2 : normTy ['h'] = ['>', 'h'] := by decide
-  have l3 : lookup Gen.NUMPY_TO_DAP2_TYPEMAP (dtypeChar ['>', 'h']) = some "Int16".toList := by decide
-  have h1 : printDs seqArrayWitness = .ok "Dataset {\n    Sequence {\n        Int16 i[i = 3];\n    } Q;\n} d;\n".toList := by
-    simp [seqArrayWitness, printDs, printL, printT, printBase, shapeText, dimText, intText_3, closeText, indent, l1]
-  have h2 : printDs (normDs seqArrayWitness) = .ok "Dataset {\n    Sequence {\n        Int16 i;\n    } Q;\n} d;\n".toList := by
-    simp [seqArrayWitness, normDs, normL, normT, normBase, printDs, printL, printT, printBase, shapeText, closeText, indent, l2, l3]
-  rw [h1, h2]
-  intro h
-  have := Except.ok.inj h
-  revert this
-  decide
+  simp [seqArrayWitness, normDs, normL, normT, normBase, effShape, l2]
 
 theorem seqArrayWitness_wf : WFds seqArrayWitness := by
   simp [WFds, seqArrayWitness, WFL, WFT, BaseOk, NameOk, Tmpl.name]
